@@ -79,6 +79,30 @@ def body_fp(body, abstract):
     return hashlib.sha1('|'.join(parts).encode()).hexdigest()[:16]
 
 
+def top_of(path):
+    return re.sub(r'(::\{(closure|inl)#[^}]*\})+.*$', '', path)
+
+
+def callers_of(raw, names):
+    """{crate function: set of top-level functions whose body (or closures / coroutine below it) names it}."""
+    out = {}
+    def note(caller, n):
+        if n in names and n != caller:
+            out.setdefault(n, set()).add(caller)
+    for b in raw['bodies']:
+        if b['kind'] == 'Promoted':
+            continue
+        caller = top_of(b['path'])
+        def see(d):
+            c = d.get('c') if isinstance(d.get('c'), dict) else None
+            if c:
+                for k in ('res', 'fn', 'def'):
+                    if isinstance(c.get(k), str):
+                        note(caller, c[k])
+        _walk(b['blocks'], see)
+    return out
+
+
 def snapshot(raw):
     """What tools/mk_known_defs.py freezes for this pass."""
     tops = [b for b in raw['bodies'] if b['kind'] != 'Promoted' and '::{closure#' not in b['path']]
@@ -86,6 +110,7 @@ def snapshot(raw):
     return {
         'sigs': {b['path']: sig_of(b) for b in tops},
         'fn_fps': {b['path']: body_fp(b, names) for b in tops},
+        'callers': {k: sorted(v) for k, v in callers_of(raw, names).items()},
         'adt_fields': {a['path']: {v['name']: [[f['name'], f['ty']] for f in v['fields']] for v in a['variants']} for a in raw['adts']},
     }
 
@@ -195,6 +220,22 @@ def canon_fns(raw, known):
             c = [x for x in c if fps.get(x) == fu]
         if len(c) == 1 and not [v for v in unknown if v != u and v not in taken_u and sig_of(tops[v]) == sigs[c[0]] and body_fp(tops[v], abstract) == fu]:
             m.setdefault(c[0], []).append(u)
+    # replaced: a function that is gone and a new one that took its place at every call site - the pinned callers of the old
+    # one are exactly the callers of the new one and the return type is the same; unique on both sides
+    pc = known.get('callers') or {}
+    taken_u = {u for us in m.values() for u in us}
+    rest_m = [x for x in missing if x not in m and pc.get(x)]
+    rest_u = [u for u in unknown if u not in taken_u]   # (a free function may have become a trait impl item: `impl Decode for X`)
+    if rest_m and rest_u:
+        cc = callers_of(raw, set(rest_u))
+        for x in rest_m:
+            want = set(pc[x])
+            if not want <= set(tops):
+                continue
+            ret = sigs[x].rsplit('|', 2)[1]
+            c = [u for u in rest_u if cc.get(u) == want and (tops[u]['locals'][0].get('ty') or '?') == ret]
+            if len(c) == 1 and len([y for y in rest_m if set(pc[y]) == want]) == 1:
+                m.setdefault(x, []).append(c[0])
     pairs = []
     for old, us in m.items():
         if len(us) > 1:
